@@ -44,6 +44,9 @@ func c02Second(s *EnumSpec, v []int) string {
 		e += ";branch=z9hG4bKsec;ttl=1"
 	case "pct":
 		e += ";branch=z9hG4bKsec;p=%41%s"
+	case "eq":
+		// '=' inside parameter values (base64 padding, a quoted pair)
+		e += ";branch=z9hG4bKYWJjZA==;cookie=\"k=v\";x=a=b"
 	}
 	switch s.Val(v, "rport") {
 	case "valueless":
@@ -482,7 +485,7 @@ func init() {
 		{Name: "port", Vals: []string{"absent", "5060", "5070"}},
 		{Name: "received", Vals: []string{"absent", "ipv4"}},
 		{Name: "rport", Vals: []string{"absent", "valueless", "numeric", "non-numeric"}},
-		{Name: "extra", Vals: []string{"none", "branch-ttl", "pct"}},
+		{Name: "extra", Vals: []string{"none", "branch-ttl", "pct", "eq"}},
 		{Name: "rest", Vals: []string{"none", "one", "two", "four"}, Quick: 3},
 		{Name: "top", Vals: []string{"proxy-udp", "proxy-tcp", "foreign", "undecodable"}},
 		{Name: "layout", Vals: []string{"one-line", "m1", "m2", "m3", "m4", "m5", "m6", "m7", "m8", "m9", "m10", "m11", "m12", "m13", "m14", "m15", "m16", "m31"}},
